@@ -44,6 +44,8 @@ Record views (su : setup) (w : world) (S : snap) : Prop := mkViews {
   v_pool : sn_pool S = q_pool (w_st w);
   v_sup : sn_sup S = q_supply (w_st w);
   v_all : sn_all S = map (q_all_delegations (params_of su) (w_st w)) (su_dels su);
+  v_xall : sn_xall S = map (fun a => other_coins (s_bank (w_st w)) (acct a)) (acct_ids su);
+  v_xsup : sn_xsup S = map (other_supply (s_bank (w_st w))) (su_xdenoms su);
   v_len : length (sn_del S) = length (pairs su) /\ length (sn_rew S) = length (pairs su) /\
           length (sn_bal S) = length (su_accts su)
 }.
@@ -52,10 +54,12 @@ Lemma model_snap_views su w S : model_snap su w = SOk S -> views su w S.
 Proof.
   unfold model_snap. intros H. inv_bind H as del Hd. inv_bind H as rew Hr. injection H as <-.
   apply smap_spec in Hd. apply smap_spec in Hr.
-  constructor; cbn [sn_del sn_rew sn_bal sn_pool sn_sup sn_all].
+  constructor; cbn [sn_del sn_rew sn_bal sn_pool sn_sup sn_all sn_xall sn_xsup].
   - intros d v Hi. destruct (zlook_forall2 peqb peqb_spec _ _ _ Hd (d, v) Hi) as (y & Z & Q). exists y. split; [exact Q|exact Z].
   - intros d v Hi. destruct (zlook_forall2 peqb peqb_spec _ _ _ Hr (d, v) Hi) as (y & Z & Q). exists y. split; [exact Q|exact Z].
   - intros a Hi. unfold sn_balance. cbn [sn_bal]. rewrite (zlook_map N.eqb Neqb_spec _ _ _ Hi). reflexivity.
+  - reflexivity.
+  - reflexivity.
   - reflexivity.
   - reflexivity.
   - reflexivity.
@@ -115,8 +119,10 @@ Proof. destruct o; cbn; auto. Qed.
 Lemma snap_eqb_refl x : snap_eqb x x = true.
 Proof.
   unfold snap_eqb.
+  assert (Hc : forall c : coin, coin_eqb c c = true) by (intros c; unfold coin_eqb; rewrite beqb_refl, N.eqb_refl; reflexivity).
   rewrite (list_eqb_refl' _ (option_eqb_refl' _ pN_eqb_refl)), (list_eqb_refl' _ (list_eqb_refl' _ pN_eqb_refl)),
-          (list_eqb_refl' _ (option_eqb_refl' _ N.eqb_refl)), (list_eqb_refl' _ N.eqb_refl), !N.eqb_refl. reflexivity.
+          (list_eqb_refl' _ (option_eqb_refl' _ N.eqb_refl)), !(list_eqb_refl' _ N.eqb_refl), !N.eqb_refl,
+          (list_eqb_refl' _ (list_eqb_refl' _ Hc)). reflexivity.
 Qed.
 
 (* ---------- clause 10: the model's queries agree with each other ---------- *)
